@@ -6,10 +6,9 @@
 \* verdicts are admissible): the expected results the implementation is compared with.
 EXTENDS MjbFile, Json, IOUtils
 World == JsonDeserialize(IOEnv.MJB_WORLD)
-R_Schema == [hdr |-> World.hdr, structs |-> World.structs, mapmul |-> World.mapmul,
-             mapsrc |-> {World.mapsrc[i] : i \in 1..Len(World.mapsrc)},
-             imap |-> World.imap, inbuf |-> World.inbuf, inbody |-> World.inbody,
-             sizes |-> World.sizes, arrays |-> World.arrays, refs |-> World.refs]
+\* the JSON object has exactly the fields of a schema (hdr, structs, mapmul, mapsrc, imap, inbuf, inbody, sizes, pvals,
+\* arrays, refs) plus `cases`
+R_Schema == World
 R_CaseIds == 1..Len(World.cases)
 R_CaseOf(i) == World.cases[i]
 =============================================================================
